@@ -144,6 +144,11 @@ func init() {
 	un, _ := mh.Encode(mustSum(x10, mh.SHA2_256, -1)[2:], 0x1012)
 	add("b26", cid.NewCidV1(cid.Raw, un), x10, "x10")
 
+	// a sha2-256 multihash whose digest field carries one byte more than the function yields: the first 32 bytes are
+	// the true digest of the data, so a comparison that stops there takes the block for valid ("valid" is FALSE)
+	long, _ := mh.Encode(append(append([]byte{}, mustSum(x7, mh.SHA2_256, -1)[2:]...), 0xaa), mh.SHA2_256)
+	add("b27", cid.NewCidV1(cid.Raw, long), x7, "x7")
+
 	// digest identities
 	type dk struct{ s string }
 	seen := map[string]string{}
